@@ -141,6 +141,7 @@ func (w *verifRW) WriteMsg(context.Context, *dns.Msg, *dns.Msg) error { w.writes
 //verif:harness name=H10b-middleware tier=quick,thorough bounds="every combination of: client port zero or not, device result kind (none, OK, auth failure, unknown dedicated, error), global IP / global name / profile verdicts, protocol limited or not, profile limiter result (drop, use-global, pass), global limiter (drop, allowlisted, pass), next handler answering or not" reach=blocked,served,ratelimited,dropped-device maxpaths=100000
 //verif:assume access verdicts, device finder, GeoIP and limiters are stubs returning symbolic choices (their own logic is decided by H10a, C03, C09)
 func VerifC10Middleware() {
+	verifPoolMode(1)
 	acc := &verifAccess{ipBlocked: nondetBool(), hostBlocked: nondetBool()}
 	profBlocked := nondetBool()
 	seen := &verifSeen{}
@@ -208,6 +209,11 @@ func VerifC10Middleware() {
 	req.SetQuestion("example.org.", dns.TypeA)
 	h := mw.Wrap(next)
 	serveErr := h.ServeDNS(context.Background(), rw, req)
+
+	// however the request ended, its pooled request information went back once: the
+	// next two requests do not share one object
+	ri1, ri2 := mw.pool.Get(), mw.pool.Get()
+	verifAssert("request-info-released-at-most-once", ri1 != ri2)
 
 	if rw.port == 0 {
 		verifAssert("zero-port-dropped-silently", next.calls == 0 && rw.writes == 0 && serveErr == nil)
